@@ -31,6 +31,7 @@ import Proofs.FitInline
 import Proofs.FitInv
 import Proofs.FitInStep
 import Proofs.FitCoherent
+import Proofs.FitValid
 import Proofs.JoinSuccess
 import Proofs.Placement
 import Props.C01
@@ -1230,19 +1231,42 @@ With it: `close_frontier_node`'s `fill_before(…, True)` runs from the state af
 closed node's content is accepted (`fillBeforeTypes_exact`) — validity of closed nodes; and
 `content_match_at(child_count)` on the re-opened node of `place_nodes` is `run 0 (types kids)`, which
 succeeds exactly when the node is not a partial node (`Slice.noPartialNode`).  `coherentB` IS an
-invariant of the loop: `coherent_invariant` below (Proofs/FitCoherent.lean).  In place for payload validity
-(Proofs/FitValid.lean, not yet assembled into a theorem about `replaceStep`): fillers are valid nodes
-without marks (`createAndFillO_valid`, `fillOpt_valid`; guards `detB`, `leafOkB`); the chain of the
-document's nodes above the frontier's depth (`PureV`) with `addToFragment_pure`, `PureV_openValid`,
-`PureV_unsnoc`; `close_frontier_node` on that chain (`closeFrontierNode_pureV`: the closed node receives
-valid fillers and is valid up to its open start) — the whole of `close` for a *deletion*, where every
-closed node is one of the document's; the final `while` (`normalizeOpen_openValid`).  Still missing:
-for deletions the re-opening phase of `close` (adding a node with valid fillers at the open end:
-`openValid a b → openValid a (b+1)`) and the assembly; for slices that are placed, `closeNodeStart`'s own
-validity (fill prefix + children accepted; needs the request slice's `openValid` carried along the
-unplaced slice), that mark filtering (`allowedMarks`) keeps mark sets canonical, and closed-node validity
-from `Coh` at the moment `close_frontier_node` closes a node the Fitter opened (`fillBeforeTypes_sound` from
-the coherent state gives acceptance). -/
+invariant of the loop: `coherent_invariant` below (Proofs/FitCoherent.lean).  Payload validity is PROVED FOR
+DELETIONS (`delete_emits_valid_payload`, `deleteRange_emits_valid_payload` below; Proofs/FitValid.lean:
+fillers valid, the chain of the document's nodes `PureV`, `closeFit_valid` = closing + the close level's
+filling + the re-opening loop `openValid_open`, the final `while`).  For slices that are placed the
+pieces in place are: a Fitter-opened node is accepted when it is closed (`levelOK_close_accepts`: coherent
+match + `fillBeforeTypes_sound`), mark filtering keeps validity (`checkNode_withMarks_allowed`,
+`allowsMarks_allowedMarks`, `canonicalMarks_allowedMarks`); still missing: `closeNodeStart`'s own validity for
+start-open nodes (fill prefix + children accepted; needs the request slice's `openValid` carried along the
+unplaced slice through `drop_from_fragment` / `open_more`), the per-level bookkeeping "all closed
+children valid, marks allowed by the level's type" next to `Coh`, and the assembly of `openValid` at the
+end; then `fit_no_raise` (its raise sites become unreachable from the same invariants). -/
+
+/-- **`delete_emits_valid_payload`** — the payload of every step `replace_step` emits for a deletion on a
+    valid document is valid in the sense of C01 (`openValid`, Proofs/ReplaceValid.lean): every node off the
+    two open spines is fully valid, the spine nodes carry canonical marks.  What the slice contains:
+    the chain of the document's nodes `Fitter.__init__` builds (their marks are canonical because the
+    document is valid), the fillers `close_frontier_node` / `find_close_level` / the re-opening loop add
+    (`fill_before` answers, built by `create_and_fill`: valid, `createAndFillO_valid`), and the
+    re-opened nodes themselves, which stay open.  Guards: `detB`, `leafOkB` (leaf types accept the empty
+    content), document valid with creatable element types.  With `delete_emits_wf` the step satisfies both
+    payload hypotheses of C01's `apply_valid` / C04's family guard. -/
+theorem delete_emits_valid_payload (S : Schema) (hdet : detB S = true) (hleaf : PM.FromDom.leafOkB S = true)
+    (doc : Node) (f t : Nat) (hv : C01.Valid S doc) (hattrs : S.nodeAttrsOK doc = true) (st : Step)
+    (h : replaceStep S doc f t Slice.empty = .ok (some st)) :
+    ∃ sl', st.sliceOf = some sl' ∧ openValid S sl'.openStart sl'.openEnd sl'.content = true :=
+  replaceStep_empty_valid S (detS_of_detB S hdet) (PM.FromDom.leafOk_of_B S hleaf) doc f t hv hattrs st h
+
+/-- … and so is the payload of the step `Transform.delete_range` records -/
+theorem deleteRange_emits_valid_payload (S : Schema) (hdet : detB S = true) (hleaf : PM.FromDom.leafOkB S = true)
+    (doc : Node) (f t : Nat) (hv : C01.Valid S doc) (hattrs : S.nodeAttrsOK doc = true) (st : Step)
+    (h : deleteRangeStep S doc f t = .ok (some st)) :
+    ∃ sl', st.sliceOf = some sl' ∧ openValid S sl'.openStart sl'.openEnd sl'.content = true := by
+  unfold deleteRangeStep at h
+  split at h
+  · simp [throw, throwThe, MonadExceptOf.throw] at h
+  · exact delete_emits_valid_payload S hdet hleaf doc _ _ hv hattrs st h
 
 /-- **`coherent_invariant`** — the key invariant `FitState.coherentB` (with the ghost level) is an invariant
     of the loop of `fit` (Proofs/FitCoherent.lean, `Coh` = the proposition behind the Boolean):
